@@ -20,7 +20,7 @@ def run(tier, replay_path=None):
     wd = workdir(pid)
     rng = random.Random(seed())
     V = Verdict(pid, tier)
-    maxlen = 4 if tier == "quick" else 6
+    maxlen = 4 if tier == "quick" else 5
     # (A)+(B): design check + generation
     cfg = ("SPECIFICATION Spec\nCONSTANT MaxLen = %d\n"
            "INVARIANT LosslessSoFar NonEmpty NeverStuck AbsWhenDone FunctionalEq StepBound Emit\n"
